@@ -372,7 +372,8 @@ def gen_crash_workload(rng):
             else:
                 text = rng.choice(DESCS + ["updated description", "x" * 300])
                 ops.append({"op": "annot", "name": nm, "text": text})
-        elif r < 0.9:
+        elif r < 0.9 or (ops and ops[-1]["op"] == "meta" and r < 0.95):
+            # (a second store_metadata right after the first: the only way a committed metadata.json gets rewritten)
             ops.append({"op": "meta", "meta": gen_meta(rng)})
         elif stored:
             j, kind0 = rng.choice(stored)
